@@ -226,3 +226,58 @@ Example port_renumbering_algebra_satisfiable (F : fieldType) (n : nat) (s : 'S_n
     (P *m 1%:M *m invmx P *m (P *m S *m invmx P) + P *m 0 *m invmx P)
     *m invmx (P *m 0 *m invmx P *m (P *m S *m invmx P) + P *m 1%:M *m invmx P).
 Proof. exact: CalAlgebra.port_renumbering_satisfiable. Qed.
+
+(* ---------------------------------------------------------------------------------------------------------
+   Renumbering of the VNA ports ON THE EXECUTABLE LIST MODELS (session 5, coq/Cal/RenumberModel.v,
+   RenumberProofs.v).  For the types with one linear system and mr = mc = n (renum_type: T8, TE10, U8, UE10,
+   T16, U16), EVERY n, every renumbering p of the ports 0..n-1 (given with its inverse q), every field, every
+   parameter valuation and every list ms of measured standards whose records are as _vnacal_new_add_common
+   leaves them (meas_wf: every equation inside the matrix, carrying the terms the builder as coded emits):
+   the system SolveSimple.assemble builds (as coded: fold over the no-V term threads, leakage means of TE10 /
+   UE10 subtracted) from the renumbered standards (renum_mv: given flags, S cells, connectivity, measured
+   values permuted cell by cell, equation (r, c) -> (p r, p c) with its terms REBUILT by the term builders as
+   coded) is, row by row, the system of the original standards with the columns of the HOMOGENEOUS system
+   (hrow: the unity term gets its column back, coefficient = - right-hand side) permuted by perm_index
+   (diagonal types: ts/ti/tx/tm[i] -> [p i]; T16/U16: cell (i, j) -> (p i, p j) in each of the four blocks).
+   The unity term tm[0] / um[0] of the renumbered system is the ordinary term tm[q 0] of the original one, which
+   is why the statement is about the homogeneous rows.
+   PARTIAL: the consequences are not proved here -- (a) the solution sets correspond (immediate: reindex the
+   sum over the columns), (b) if both calibrations solve, the renumbered error terms are the permuted original
+   ones divided by the term that lands on the unity position (needs SolveRecovers.solve_system_recovers_lemma),
+   (c) the applied S is the renumbered S (needs the conjugation-equivariance of ApplyModel.apply_fill / q_apply);
+   UE14 / E12 (one system per column, the unity term of column c is um[c][c]) are not covered; that
+   add_common of the renumbered call returns renum_meas of the original record (up to the order of the
+   equations) is checked by the example below and by the tie of checks/C17.py, not proved for all arguments. *)
+Require LV.Base.CField LV.Cal.Sym LV.Cal.SolveSimple LV.Cal.CalQI LV.Cal.RenumberModel LV.Cal.RenumberProofs.
+Theorem c17_renumbering_permutes_equations_partial :
+  forall (K : CField.CField) (ty : caltype) (n : nat) (p q : nat -> nat) (pval : Z -> CField.F K)
+         (ms : list (SolveSimple.mvals (Sym.ops_of K))) (sys : nat),
+  RenumberModel.renum_type ty = true -> RenumberModel.is_renum n p q ->
+  (forall mv, List.In mv ms -> RenumberModel.meas_wf ty n (SolveSimple.mv_meas (Sym.ops_of K) mv)) ->
+  List.Forall2
+    (fun row' row => forall k : nat, Peano.lt k (RenumberModel.t_terms_of ty n) ->
+       RenumberModel.hrow (Sym.ops_of K) (RenumberModel.unity_pos ty n) row' (RenumberModel.perm_index ty n p k) =
+       RenumberModel.hrow (Sym.ops_of K) (RenumberModel.unity_pos ty n) row k)
+    (SolveSimple.assemble (Sym.ops_of K) ty n n pval (List.map (RenumberModel.renum_mv (Sym.ops_of K) ty n p q) ms) sys)
+    (SolveSimple.assemble (Sym.ops_of K) ty n n pval ms sys).
+Proof. exact RenumberProofs.renum_assemble_lemma. Qed.
+Print Assumptions c17_renumbering_permutes_equations_partial.
+
+(* hypotheses met and conclusion not trivial: TE10 2x2, a through and a reflect on port 1, the two ports
+   swapped: the renumbering is a bijection, both records are meas_wf, renum_meas of the reflect on port 1 IS the
+   record add_common builds for the reflect on port 2, the unity column 6 (tm[0]) goes to column 7, and the
+   homogeneous rows of the two systems differ *)
+Example c17_renumbering_permutes_equations_example :
+  RenumberModel.is_renum 2%nat RenumberProofs.sw2 RenumberProofs.sw2 /\
+  (forall mv, List.In mv RenumberProofs.rn_ms ->
+     RenumberModel.meas_wf TE10 2%nat (SolveSimple.mv_meas CalQI.qops mv)) /\
+  RenumberProofs.meas_same
+    (RenumberModel.renum_meas TE10 2%nat RenumberProofs.sw2 RenumberProofs.sw2 (RenumberProofs.rn_meas (RenumberProofs.rn_refl BinInt.Z.one)))
+    (RenumberProofs.rn_meas (RenumberProofs.rn_refl BinInt.Z.two)) = true /\
+  RenumberModel.perm_index TE10 2%nat RenumberProofs.sw2 6%nat = 7%nat /\ RenumberModel.unity_pos TE10 2%nat = 6%nat /\
+  List.map (fun row => List.map (RenumberModel.hrow CalQI.qops 6%nat row) (List.seq 0%nat 8%nat))
+           (SolveSimple.assemble CalQI.qops TE10 2%nat 2%nat RenumberProofs.rn_pval RenumberProofs.rn_ms 0%nat) <>
+  List.map (fun row => List.map (RenumberModel.hrow CalQI.qops 6%nat row) (List.seq 0%nat 8%nat))
+           (SolveSimple.assemble CalQI.qops TE10 2%nat 2%nat RenumberProofs.rn_pval
+              (List.map (RenumberModel.renum_mv CalQI.qops TE10 2%nat RenumberProofs.sw2 RenumberProofs.sw2) RenumberProofs.rn_ms) 0%nat).
+Proof. exact RenumberProofs.renum_example_lemma. Qed.
